@@ -376,7 +376,10 @@ def _p10(ctx):
                 srcs = [a for v in vals for a in x.loads_in(v)]
                 parent = [a for a in srcs if any(p.startswith('<Reader>/Reader.pos/ReaderPos.pos_data') for p in a.paths)]
                 arith = [s for v in vals for s in g.walk(v) if s[0] in ('bin', 'un') or s[0] == 'c']
-                oka = bool(vals) and bool(parent) and len(parent) == len(srcs) and not arith
+                # an alternative that is no load at all (a position handed in by the caller, an unknown value) is not the
+                # parent's position either
+                foreign = [s for v in vals for s in g.walk(v) if s[0] in ('param', 'unknown', 'hofarg')]
+                oka = bool(vals) and bool(parent) and len(parent) == len(srcs) and not arith and not foreign
                 # the position may also be given to the new stream by a store of its own before the list that contains it
                 # is published (cells allocated once, placed anew in every attempt): then that store decides
                 pstores = [a for a in x.atoms_on('ReaderPos.pos_data', ops={'store'}) if not any(p.startswith('<Reader>/') for p in a.paths)]
@@ -389,13 +392,14 @@ def _p10(ctx):
                         srcs = list(x.loads_in(v))
                         parent = [l_ for l_ in srcs if any(p.startswith('<Reader>/Reader.pos/ReaderPos.pos_data') for p in l_.paths)]
                         arith = [s_ for s_ in g.walk(v) if (s_[0] in ('bin', 'un') and not _tagmask(s_)) or (s_[0] == 'c' and not is_const(s_, MASK_TAG))]
-                        okv = okv and bool(parent) and len(parent) == len(srcs) and not arith
+                        foreign = [s_ for s_ in g.walk(v) if s_[0] in ('param', 'unknown', 'hofarg')]
+                        okv = okv and bool(parent) and len(parent) == len(srcs) and not arith and not foreign
                     pn = {a.nid for a in pstores}
                     # placed before every publication attempt, never after one succeeded
                     oka = okv and x.dom(pn, C) and not any(x.reaches(s_, p_) for s_ in succ for p_ in pn)
                 ctx.add('P10a', 'T-FLOW', fn, oka, 'the new stream starts at the parent\'s position, loaded during the call' if oka else
                         'the new stream\'s initial position is not (only) the parent\'s current position (sources: %s, arithmetic/constants: %s)'
-                        % ([sorted(a.paths)[0] for a in srcs], bool(arith)), where=x.where_stmt(nid, si), sub=sub + '|startpos')
+                        % ([sorted(a.paths)[0] for a in srcs] + ['<value handed in by the caller>' for _ in foreign[:1]], bool(arith)), where=x.where_stmt(nid, si), sub=sub + '|startpos')
                 # the snapshot is still the parent's position when the new stream becomes visible to the writers: either
                 # nobody else can move the parent (this handle is the stream's only consumer, tested), or the position is
                 # read again after the publication and the stream is handed out only if it did not move.  Otherwise a
@@ -661,7 +665,7 @@ def _w13_w14(ctx):
 def _s5(ctx):
     F = ctx.F
     ctors = [name for name in F.fns if constructs(F, name, 'InnerRecv') and not F.fns[name].get('from_expansion')]
-    ctx.floor('S5', len(ctors), 3, 'InnerRecv{..} constructors')
+    ctx.floor('S5', len(ctors), 1, 'InnerRecv{..} constructors')
     for c in ctors:
         g = ctx.graph(c, 'MPMC')
         x = g.x
